@@ -432,3 +432,65 @@ theorem scan_build (fid : Nat) (ds : List ByteArray) (hpos : ∀ d ∈ ds, 0 < d
   · rfl
 
 end XixiKV.Frame
+
+namespace XixiKV.Frame
+open XixiKV
+variable (C : Codec)
+
+theorem size_restChunks_exact (d : ByteArray) (fuel : Nat) (hd : 0 < d.size) (hf : d.size ≤ fuel) :
+    (restChunks C d fuel).size = restCount d.size fuel * H + d.size := by
+  induction fuel generalizing d with
+  | zero => omega
+  | succ m ih =>
+    unfold restChunks restCount
+    have hH := hH; have hBS := hBS
+    split
+    · rw [C.size_enc]; omega
+    · rename_i hgt
+      have := ih (d.extract (BS - H) d.size)
+        (by simp [ByteArray.size_extract]; omega) (by simp [ByteArray.size_extract]; omega)
+      rw [ByteArray.size_append, C.size_enc, this]
+      have e : (d.extract (BS - H) d.size).size = d.size - (BS - H) := by
+        simp [ByteArray.size_extract]
+      rw [e]
+      have e2 : (d.extract 0 (BS - H)).size = BS - H := by
+        simp [ByteArray.size_extract]; omega
+      rw [e2, Nat.add_mul]; omega
+
+/-- the number of bytes a record occupies depends only on its length and start offset -/
+theorem size_recChunks_exact (d : ByteArray) (o : Nat) (hd : 0 < d.size) (ho : o + H < BS) :
+    (recChunks C d o).size = recCount o d.size * H + d.size := by
+  have hH := hH; have hBS := hBS
+  unfold recChunks recCount; simp only []
+  split
+  · rw [C.size_enc]; omega
+  · rename_i hgt
+    have := size_restChunks_exact C (d.extract (BS - o - H) d.size) d.size
+      (by simp [ByteArray.size_extract]; omega) (by simp [ByteArray.size_extract])
+    rw [ByteArray.size_append, C.size_enc, this]
+    have e : (d.extract (BS - o - H) d.size).size = d.size - (BS - o - H) := by
+      simp [ByteArray.size_extract]
+    rw [e]
+    have e2 : (d.extract 0 (BS - o - H)).size = BS - o - H := by
+      simp [ByteArray.size_extract]; omega
+    rw [e2, Nat.add_mul]; omega
+
+/-- **geometry is data independent**: position, size and new file size of an append are the
+    pure function `geom` of (file size, payload length) -/
+theorem posOf_geom (fid : Nat) (f d : ByteArray) :
+    let g := geom f.size d.size
+    (posOf C fid f.size d) = { fid := fid, block := g.1, off := g.2.1, size := g.2.2.1 } ∧
+    (appendRec C f d).size = g.2.2.2 := by
+  have hm := mod_lt_BS f.size
+  simp only [geom, posOf, occupied]
+  by_cases hd : d.size = 0
+  · simp [hd, appendRec, writeRec, ByteArray.size_append]
+  · have hd' : 0 < d.size := by omega
+    rw [if_neg hd, if_neg hd, size_recChunks_exact C d _ hd' (normO_lt _ hm)]
+    refine ⟨rfl, ?_⟩
+    unfold appendRec
+    rw [writeRec_pos C d _ hd', ByteArray.size_append, ByteArray.size_append, size_zeros,
+      size_recChunks_exact C d _ hd' (normO_lt _ hm)]
+    omega
+
+end XixiKV.Frame
